@@ -243,6 +243,15 @@ class DataConnection(Connection, abc.ABC):
             raise ConnectionFailedError(f"{self.hostname}:{self.port} : failed to connect") from exc
 
         else:
+            if self.state != ConnectionState.CONNECTING:
+                # The connection got disconnected while the attempt was in
+                # progress: the connection that was just opened is not used
+                self._writer.close()
+                self._reader = None
+                self._writer = None
+                raise ConnectionFailedError(
+                    f"{self.hostname}:{self.port} : disconnected while connecting")
+
             adapter.debug("connected", extra=self.__dict__)
             await self.set_state(ConnectionState.CONNECTED)
 
